@@ -232,6 +232,8 @@ def _r_tok(root: Any, op: dict, a: Action, idx: Any) -> Action:
     if kind == 'value':
         v = D.decode(op['v'])
         a.ref['value'] = v
+        if op['cls'] == 'INDENT':
+            a.syntax_ok = False  # an indent override
         a._run = lambda: setattr(t, 'value', v)
     elif kind == 'raw':
         a.syntax_ok = False
@@ -509,6 +511,18 @@ def _compatible(model: Any, kinds: list) -> bool:
     return False
 
 
+def _fits(node: Any, p: S.Prop) -> bool:
+    """Does a moved/copied node carry indentation that fits the destination list? Every comment line inside a node that
+    goes into an indented body must itself be indented (a node can own an unindented comment when attribution crossed
+    the indentation class - see C14 - and such a node is an ill-indented donor for another body)."""
+    if p.name in ('raw_meta_with_comments', 'raw_postings_with_comments', 'raw_meta', 'raw_postings', 'meta'):
+        toks = [node] if isinstance(node, base.RawTokenModel) else node.tokens
+        for t in toks:
+            if isinstance(t, BlockComment) and any(line[:1] not in (' ', '\t') for line in t.raw_text.split('\n')):
+                return False
+    return True
+
+
 def _r_copyins(root: Any, op: dict, a: Action, idx: Any) -> Action:
     src = find_model(root, op['src']['cls'], op['src']['mi'], idx)
     P, p = _target(root, op, idx)
@@ -520,6 +534,7 @@ def _r_copyins(root: Any, op: dict, a: Action, idx: Any) -> Action:
     i = op.get('i', 0)
     a.P, a.inserted = P, [node]
     a.shape = 'copy-insert'
+    a.syntax_ok = _fits(src, p)
     a.ref.update(cur=cur, new=[node], wrapper=w, raw_wrapper=w, expected=list_apply(cur, 'insert', i, None, None, [node]))
     a._run = lambda: w.insert(i, node)
     return a
@@ -539,6 +554,7 @@ def _r_popins(root: Any, op: dict, a: Action, idx: Any) -> Action:
         raise NotApplicable('incompatible')
     a.P = P
     a.shape = 'pop-reinsert'
+    a.syntax_ok = _fits(item, p)
     a.ref['two_parents'] = SP
     a.inserted = [item]
 
@@ -587,40 +603,34 @@ _RESOLVERS = {'tok': _r_tok, 'opt': _r_opt, 'req': _r_req, 'val': _r_val, 'list'
 
 
 def shape_of(name: str, i: Any, j: Any, k: Any, n: int, nnew: int) -> str:
+    """Argument shape for bucketing: index class, emptiness and direction of a slice, step class - not the exact numbers."""
     def ic(x: Any) -> str:
         if x is None:
             return 'N'
         if x == 0:
             return '0'
-        if x == n:
-            return 'n'
-        if x > n:
-            return '>n'
-        if x == n - 1:
-            return 'n-1'
+        if x >= n:
+            return '>=n'
         if x > 0:
-            return 'mid'
-        if x == -1:
-            return '-1'
-        if x == -n:
-            return '-n'
-        if x < -n:
-            return '<-n'
-        return '-mid'
+            return '+'
+        if x >= -n:
+            return '-'
+        return '<-n'
     size = '0' if n == 0 else '1' if n == 1 else 'm'
+    v = '0' if nnew == 0 else '1' if nnew == 1 else 'm'
     if name in ('append', 'pop_last', 'extend', 'iadd', 'clear', 'reverse'):
-        return f'{name}/n{size}/v{min(nnew, 2)}'
+        return f'{name}/n{size}/v{v}'
     if name in ('insert', 'pop', 'del', 'set', 'remove', 'discard'):
         return f'{name}[{ic(i)}]/n{size}'
     try:
         r = range(n)[slice(i, j, k)]
-        rr = 'empty' if len(r) == 0 else 'one' if len(r) == 1 else 'many'
-        if len(r) == 0 and i is not None and j is not None and i > j:
+        rr = 'empty' if len(r) == 0 else 'nonempty'
+        if len(r) == 0 and r.start > r.stop and r.step > 0:
             rr = 'empty-rev'
     except Exception:  # noqa: BLE001
         rr = 'bad'
-    st = 'N' if k is None else str(k) if abs(k) <= 2 else ('+' if k > 0 else '-')
-    return f'{name}[{ic(i)}:{ic(j)}:{st}]{rr}/n{size}/v{min(nnew, 2)}'
+    st = '1' if k in (None, 1) else ('+' if k > 0 else '-')
+    return f'{name}[step{st}]{rr}/v{v}'
 
 
 # --------------------------------------------------------------------------- state-aware generation
